@@ -1,8 +1,13 @@
 (* C12 -- scaled and raw representations convert back and forth.
-   Only statements, each closed by [exact] of a lemma proved elsewhere, with its assumptions printed. *)
+   Only statements, each closed by [exact] of a lemma proved elsewhere, with its assumptions printed.
+   Model: Model/Float.v (Go float64 = Coq primitive binary64), Model/Scale.v (the routes), Model/Routes.v (the
+   conversion mode of every route, derived from the source on every run: gen/ConvMode.v).
+   [rt_kind k mu m bt s o x] is raw -> scaled -> raw through a route of shape k (helper / slice / generated accessor)
+   whose integer conversion has mode m (Trunc = plain Go conversion, Round = math.Round first). *)
 From Coq Require Import ZArith NArith List Floats.
 Import ListNotations.
-From Fit Require Import Model.Float Model.Profile Model.Scale Proofs.ScaleProofs.
+From Fit Require Import Model.Float Model.Profile Model.Scale Model.Routes gen.Factory gen.ScaledAccessors.
+From Fit Require Import Proofs.ScaleProofs Proofs.SweepProofs Inst.ScaleInst.
 
 (* FIT timestamp -> time.Time -> FIT timestamp is the identity on every uint32, the invalid sentinel
    0xFFFFFFFF included (it maps to the zero time.Time, which is before the epoch, and back) *)
@@ -16,11 +21,70 @@ Theorem C12_semicircles : forall x, (- 2 ^ 31 <= x < 2 ^ 31)%Z -> to_semicircles
 Proof. exact semicircles_roundtrip. Qed.
 Print Assumptions C12_semicircles.
 
-(* scale 1, offset 0: exact for every value below 2^53 of every integer base type, under either conversion mode *)
+(* scale 1, offset 0: exact for every value below 2^53 of every integer base type, under either conversion mode
+   (above 2^53 an int64/uint64 is not a float64: Apply[T] itself is lossy there; ApplyValue/ApplyAny leave unscaled values alone) *)
 Theorem C12_exact_when_unscaled : forall m mu bt x, (0 < bt_bits bt)%Z -> in_range bt x -> (Z.abs x < 2 ^ 53)%Z ->
   rt_helper m bt 1 0 x = x /\ rt_slice mu m bt 1 0 x = x.
 Proof. exact exact_when_unscaled. Qed.
 Print Assumptions C12_exact_when_unscaled.
 
+(* FULL STATEMENT for a rounding conversion: every (base type, scale, offset) triple occurring in the factory (fields,
+   sub-fields, components) with an 8- or 16-bit base type, EVERY raw value of the type, every route shape:
+   the raw value comes back.  Complete vm_compute sweeps (Inst/Sweep16_*.v) lifted with forallb_forall. *)
+Theorem C12_16bit : forall bt sb ob, In (bt, sb, ob) (all_triples mesgs) -> (1 <= bt_bits bt <= 16)%Z ->
+  forall k mu x, in_range bt x -> rt_kind k mu Round bt (f64_of_bits sb) (f64_of_bits ob) x = x.
+Proof. intros bt sb ob Hin Hb k mu x. exact (sixteen_round bt sb ob Hin Hb k mu x). Qed.
+Print Assumptions C12_16bit.
+
+(* the same for every 32-bit raw value, by error analysis (four roundings stay within 1/4 of x); Inst: every 32-bit
+   triple of the factory has 1/2 <= scale <= 2^17, |offset| <= 2^10 *)
+Theorem C12_32bit : forall bt sb ob k mu x, In (bt, sb, ob) (all_triples mesgs) -> (17 <= bt_bits bt <= 32)%Z -> in_range bt x ->
+  rt_kind k mu Round bt (f64_of_bits sb) (f64_of_bits ob) x = x.
+Proof. exact thirtytwo_round. Qed.
+Print Assumptions C12_32bit.
+
+(* nothing wider or non-integer is scaled in the profile *)
+Theorem C12_scaled_are_small_integers : forall bt sb ob, In (bt, sb, ob) (all_triples mesgs) -> (0 < bt_bits bt <= 32)%Z.
+Proof.
+  intros bt sb ob Hin. pose proof scaled_are_integers as H. rewrite forallb_forall in H.
+  rewrite <- Inst.Triples.triples_all_eq in Hin. specialize (H _ Hin). cbn in H.
+  apply andb_prop in H. destruct H as [H1 H2]. apply Z.ltb_lt in H1. apply Z.leb_le in H2. split; assumption.
+Qed.
+Print Assumptions C12_scaled_are_small_integers.
+
+(* PARTIAL (the truncating conversion): at most one unit toward zero, every 8/16-bit raw value.
+   Full statement: C12_16bit with Trunc in place of Round -- refuted below. *)
+Theorem C12_within_one : forall bt sb ob, In (bt, sb, ob) (all_triples mesgs) -> (1 <= bt_bits bt <= 16)%Z ->
+  forall k mu x, in_range bt x ->
+  let r := rt_kind k mu Trunc bt (f64_of_bits sb) (f64_of_bits ob) x in
+  r = x \/ (0 <= x /\ r = x - 1)%Z \/ (x < 0 /\ r = x + 1)%Z.
+Proof. intros bt sb ob Hin Hb k mu x. exact (sixteen_trunc bt sb ob Hin Hb k mu x). Qed.
+Print Assumptions C12_within_one.
+
+(* the truncating conversion does lose raw values of profile triples (uint16, scale 100: 29 -> 28) *)
+Theorem C12_refuted : exists bt sb ob x, In (bt, sb, ob) (all_triples mesgs) /\ in_range bt x /\
+  rt_helper Trunc bt (f64_of_bits sb) (f64_of_bits ob) x <> x.
+Proof. exact trunc_refuted. Qed.
+Print Assumptions C12_refuted.
+
+(* THE OBLIGATION FOR THE CODE AS IT STANDS: for every route, with the mode derived from the source --
+   the full statement when the route rounds, "at most one unit toward zero" while it truncates *)
+Theorem C12_16bit_current : forall r, expected_for (route_mode r) (route_kind r).
+Proof. exact sixteen_current. Qed.
+Print Assumptions C12_16bit_current.
+
+(* every generated XxxScaled / SetXxxScaled pair carries the factory's scale, offset and base type in both directions,
+   has the field's array shape, and converts the way the template does *)
+Theorem C12_accessors : forallb accessor_ok accessors = true /\ N.of_nat (length accessors) = n_accessors.
+Proof. exact (conj accessors_ok accessors_counted). Qed.
+Print Assumptions C12_accessors.
+
+(* non-vacuity *)
+Example C12_witnesses :
+  rt_helper Trunc 132 100 0 29 = 28%Z /\ rt_helper Trunc 132 100 0 16039 = 16038%Z /\ rt_helper Trunc 132 5 500 1 = 0%Z /\
+  rt_helper Round 132 100 0 29 = 29%Z /\ rt_helper Round 132 100 0 16039 = 16039%Z /\ rt_helper Round 132 5 500 1 = 1%Z.
+Proof. exact trunc_witnesses. Qed.
 Example C12_time_example : to_uint32 (to_time 1000000000) = 1000000000%Z /\ to_uint32 (to_time 4294967295) = 4294967295%Z.
 Proof. vm_compute. split; reflexivity. Qed.
+Example C12_triples_nonempty : In (132%N, 4636737291354636288%N, 0%N) (all_triples mesgs) /\ In (134%N, 4652007308841189376%N, 0%N) (all_triples mesgs).
+Proof. rewrite <- Inst.Triples.triples_all_eq. split; apply triple_mem_In; vm_compute; reflexivity. Qed.
